@@ -91,10 +91,10 @@ class Fmt:
         if k == 'mcall' and e['f'].split('::')[-1] in ('getline',) and isinstance(e.get('o'), dict) and e['o'].get('k') == 'var' and e['o']['id'] in self.ins:
             out.append(('F', None))
             return
-        if k == 'call' and e.get('fid') and Fmt.prog is not None and getattr(self, 'depth', 0) < 3:
+        if k in ('call', 'mcall') and e.get('fid') and Fmt.prog is not None and getattr(self, 'depth', 0) < 3:
             # a unit-private helper that is handed the text / the stream parses part of the format
             g = Fmt.prog.funcs.get(e['fid'])
-            if g is not None and g.get('internal') and g.get('body'):
+            if Fmt.prog.is_helper(g):
                 for x in e.get('a', []):
                     self.expr(x, out) if not (isinstance(x, dict) and x.get('k') == 'var') else None
                 sub = Fmt(g)
